@@ -168,4 +168,12 @@ MUTANTS = [
  {"id": "leading-blank-count-all-blanks", "kind": "break", "edits": [{"patch": "/verif/benign/h9-plist-2/patch.diff"}, ("src/plist.rs", ".take_while(|c| c.is_ascii_whitespace())\n                    .count();", ".filter(|c| c.is_ascii_whitespace())\n                    .count();")], "expect": ["D1-"]},
  {"id": "leading-blank-count-one-more", "kind": "break", "edits": [{"patch": "/verif/benign/h9-plist-2/patch.diff"}, ("src/plist.rs", "Some(OsStr::from_bytes(&rest[skip..]))", "Some(OsStr::from_bytes(&rest[skip + 1..]))")], "expect": ["D1-"]},
  {"id": "leading-blank-count-counted-elsewhere", "kind": "break", "edits": [{"patch": "/verif/benign/h9-plist-2/patch.diff"}, ("src/plist.rs", "                let skip = rest\n", "                let skip = bytes\n")], "expect": ["D1-"]},
+
+ # the argument split moved verbatim, with its loop, into split_args(bytes, sep): judged as part of from_bytes (the helper's blocks are spliced into the caller's graph)
+ {"id": "looping-helper-benign", "kind": "benign", "edits": [{"patch": "/verif/benign/h10-plist-1/patch.diff"}]},
+ {"id": "looping-helper-cursor-steps-two", "kind": "break", "edits": [{"patch": "/verif/benign/h10-plist-1/patch.diff"}, ("src/plist.rs", "            start += 1;\n        }\n        if start == end {", "            start += 2;\n        }\n        if start == end {")], "expect": ["D1-"]},
+ {"id": "looping-helper-stops-at-first-blank", "kind": "break", "edits": [{"patch": "/verif/benign/h10-plist-1/patch.diff"}, ("src/plist.rs", "            if !c.is_ascii_whitespace() {\n                break;", "            if c.is_ascii_whitespace() {\n                break;")], "expect": ["D1-"]},
+ {"id": "looping-helper-empty-argument-kept", "kind": "break", "edits": [{"patch": "/verif/benign/h10-plist-1/patch.diff"}, ("src/plist.rs", "        if start == end {\n            return None;\n        }\n        Some(OsStr::from_bytes(&bytes[start..end]))", "        Some(OsStr::from_bytes(&bytes[start..end]))")], "expect": ["D1-"]},
+ {"id": "looping-helper-argument-from-separator", "kind": "break", "edits": [{"patch": "/verif/benign/h10-plist-1/patch.diff"}, ("src/plist.rs", "        Some(OsStr::from_bytes(&bytes[start..end]))", "        Some(OsStr::from_bytes(&bytes[sep..end]))")], "expect": ["D1-"]},
+ {"id": "looping-helper-called-with-next-position", "kind": "break", "edits": [{"patch": "/verif/benign/h10-plist-1/patch.diff"}, ("src/plist.rs", "let args = Self::split_args(bytes, sep);", "let args = Self::split_args(bytes, sep + 2);")], "expect": ["D1-"]},
 ]
